@@ -12,6 +12,12 @@ usage: seed_eval.py <property-id> <name> <patch.diff> <demo_test.go> <note.txt> 
 import json, os, re, shutil, subprocess, sys, time
 
 ENV = dict(os.environ, GOFLAGS="-mod=mod", GOPROXY="off", GOSUMDB="off", GOTOOLCHAIN="local")
+# SEED_REPO / SEED_VERIF: evaluate on a scratch worktree of /repo and a scratch copy of /verif
+# (tools/seed_add_par.sh); results are always written to /verif/seeded/<name>/
+REPO = os.environ.get("SEED_REPO", "/repo")
+VERIF = os.environ.get("SEED_VERIF", "/verif")
+if REPO != "/repo":
+    ENV.update(VERIF_ROOT=VERIF, VERIF_REPO=REPO)
 
 def sh(cmd, cwd=None, timeout=1800):
     p = subprocess.run(cmd, shell=True, cwd=cwd, env=ENV, capture_output=True, text=True, timeout=timeout)
@@ -23,38 +29,38 @@ def main():
     extra = sys.argv[6:]
     out = f"/verif/seeded/{name}"
     os.makedirs(out, exist_ok=True)
-    assert sh("git status --short", "/repo")[1].strip() == "", "/repo is not clean"
+    assert sh("git status --short", REPO)[1].strip() == "", "/repo is not clean"
     first = open(demo).readline()
     m = re.search(r"place in:\s*(\S+)", first)
     pkgdir = m.group(1).strip("/") if m else ""
-    demo_dst = f"/repo/{pkgdir}/zz_seed_demo_test.go"
+    demo_dst = f"{REPO}/{pkgdir}/zz_seed_demo_test.go"
     meta = {"property": pid, "name": name, "note": open(note).read() if os.path.exists(note) else "", "ran": []}
     try:
         # demo on the unchanged tree
         shutil.copy(demo, demo_dst)
-        rc0, o0 = sh(f"go test -vet=off -count=1 ./{pkgdir}/", "/repo")
+        rc0, o0 = sh(f"go test -vet=off -count=1 ./{pkgdir}/", REPO)
         meta["demo_passes_without_change"] = rc0 == 0
         os.remove(demo_dst)
         # apply
-        rc, o = sh(f"git apply {patch}", "/repo")
+        rc, o = sh(f"git apply {patch}", REPO)
         if rc != 0:
             meta["error"] = "patch does not apply: " + o[-400:]
             return meta
-        rc, o = sh("go build ./... && go test -vet=off -count=1 ./...", "/repo")
+        rc, o = sh("go build ./... && go test -vet=off -count=1 ./...", REPO)
         meta["suite_passes_with_change"] = rc == 0
         if rc != 0:
             meta["suite_output"] = o[-600:]
         shutil.copy(demo, demo_dst)
-        rc1, o1 = sh(f"go test -vet=off -count=1 ./{pkgdir}/", "/repo")
+        rc1, o1 = sh(f"go test -vet=off -count=1 ./{pkgdir}/", REPO)
         meta["demo_fails_with_change"] = rc1 != 0
         meta["demo_output"] = o1[-800:]
         os.remove(demo_dst)
         # checks
         for cid in [pid] + extra:
             t0 = time.time()
-            rc, o = sh(f"./check {cid} quick", "/verif")
+            rc, o = sh(f"./check {cid} quick", VERIF)
             lines = [l for l in o.splitlines() if l.startswith(("VIOLATION", "OK ", "INFRA", "KNOWN"))]
-            meta["ran"].append({"check": f"./check {cid} quick", "exit": rc, "verdict": lines[-1][:300] if lines else o[-300:], "wall_s": round(time.time() - t0, 1)})
+            meta["ran"].append({"check": f"./check {cid} quick", "exit": rc, "verdict": (lines[-1][:300] if lines else o[-300:]).replace(VERIF, "/verif"), "wall_s": round(time.time() - t0, 1)})
             mm = re.search(r"replay=(\S+)", o)
             if mm and os.path.exists(mm.group(1)):
                 r = json.load(open(mm.group(1)))
@@ -67,7 +73,7 @@ def main():
     finally:
         if os.path.exists(demo_dst):
             os.remove(demo_dst)
-        sh("git checkout -- . && git clean -fdq", "/repo")
+        sh("git checkout -- . && git clean -fdq", REPO)
     return meta
 
 if __name__ == "__main__":
